@@ -1194,7 +1194,8 @@ ABSL_ATTRIBUTE_NOINLINE void ConcurrentTransientHashSet<T, H, E>::reserve(
 template <typename T, typename H, typename E>
 ABSL_ATTRIBUTE_NOINLINE size_t ConcurrentTransientHashSet<T, H, E>::total_size(
     TableNode* node) const noexcept {
-  auto sum = _head.table.bucket_count();
+  // 头表已满时size等于桶数，默认构造的占位头表【又空又满】size为0
+  auto sum = _head.table.size();
   while (true) {
     auto next = node->next.load(::std::memory_order_acquire);
     if (next == nullptr) {
